@@ -110,6 +110,12 @@ func (f *File) syncWithoutLocking() error {
 	}
 
 	if f.writeBuf != nil {
+		// Flushing reads the write buffer from its start, so remember where the handle is
+		curr, err := f.writeBuf.Seek(0, io.SeekCurrent)
+		if err != nil {
+			return err
+		}
+
 		done := false
 		if _, err := f.writeOps.Update(
 			func() (config.FileConfig, error) {
@@ -157,7 +163,8 @@ func (f *File) syncWithoutLocking() error {
 							return nil, err
 						}
 
-						return f.writeBuf, nil
+						// The `update` operation closes what it is given; the handle keeps using the write buffer after a `Sync`
+						return readSeekNopCloser{f.writeBuf}, nil
 					},
 					Info: f.info,
 					Path: f.path,
@@ -170,10 +177,20 @@ func (f *File) syncWithoutLocking() error {
 		); err != nil {
 			return err
 		}
+
+		if _, err := f.writeBuf.Seek(curr, io.SeekStart); err != nil {
+			return err
+		}
 	}
 
 	return nil
 }
+
+type readSeekNopCloser struct {
+	io.ReadSeeker
+}
+
+func (readSeekNopCloser) Close() error { return nil }
 
 func (f *File) closeWithoutLocking() error {
 	f.log.Trace("File.closeWithoutLocking", map[string]interface{}{
@@ -193,8 +210,11 @@ func (f *File) closeWithoutLocking() error {
 	}
 
 	if f.writeBuf != nil {
-		// No need to close write buffer, the `update` operation closes it itself
 		if err := f.syncWithoutLocking(); err != nil {
+			return err
+		}
+
+		if err := f.writeBuf.Close(); err != nil {
 			return err
 		}
 
